@@ -1101,6 +1101,14 @@ def arr(x, S=None):
     """object ndarray of SymC from anything numeric (lifting constants)"""
     S = S or CUR
     a = np.asarray(x, dtype=object) if not (isinstance(x, np.ndarray) and x.dtype == object) else x
+    if S is None:
+        # no current session (plain-float replay): take the session of a symbolic element if there is one, else leave numbers alone
+        for v in a.ravel():
+            if isinstance(v, SymC):
+                S = v.S
+                break
+        if S is None:
+            return a
     out = np.empty(a.shape, dtype=object)
     flat_in = a.ravel()
     flat = out.ravel()
